@@ -197,6 +197,9 @@ pub struct State<I> {
     pub strict: bool,
     /// a write failed because there was no room, not because a fault was injected
     pub unforced_write_failure: bool,
+    /// the transport reported a failure that ends the connection (any injected fault except a
+    /// failed request write on the client, which only fails that call)
+    pub fatal_failure: bool,
 }
 
 pub struct Mock<S, I> {
@@ -250,6 +253,7 @@ pub fn new_mock<S, I>(
         tag2: 0,
         strict: true,
         unforced_write_failure: false,
+        fatal_failure: false,
     }));
     (
         Mock {
@@ -270,6 +274,9 @@ impl<I> State<I> {
         if let Some((fop, k)) = self.fault {
             if fop == op && *c == k && self.fault_fired.is_none() {
                 self.fault_fired = Some((op, k));
+                if !matches!(op, Op::Send | Op::Eof) {
+                    self.fatal_failure = true;
+                }
                 return true;
             }
         }
@@ -321,7 +328,7 @@ impl<I> State<I> {
     }
     /// The owning task returned Pending (going idle): C14(c).
     pub fn on_task_pending(&mut self) {
-        if self.dirty && !self.failed && !self.tx_wake_owed {
+        if self.dirty && !self.failed && !self.fatal_failure && !self.tx_wake_owed {
             self.viol(
                 "idle-unflushed",
                 "task returned Pending while written items remain unflushed and the transport owes it no wake-up".into(),
@@ -330,7 +337,7 @@ impl<I> State<I> {
     }
     /// The owning task finished through an orderly path.
     pub fn on_task_finished_orderly(&mut self) {
-        if self.dirty && !self.failed {
+        if self.dirty && !self.failed && !self.fatal_failure {
             self.viol(
                 "finish-unflushed",
                 "task finished (orderly shutdown) while written items remain unflushed".into(),
@@ -468,6 +475,9 @@ impl<S: Abstract, I> Sink<S> for Mock<S, I> {
             step,
         });
         if fail {
+            if s.who == "server" || matches!(item, Item::Cancel { .. }) {
+                s.fatal_failure = true;
+            }
             if s.fault_fired.map(|(o, _)| o != Op::Send).unwrap_or(true) {
                 s.unforced_write_failure = true;
             }
